@@ -581,12 +581,15 @@ Proof.
   - apply cinv_grow; [done|done|by apply grow_refl].
 Qed.
 
-Lemma cinv_sync_pod w key fl :
-  CInv w → CInv (pstep w (PSyncPod key fl)).1 ∧ freed_unassigned w (pstep w (PSyncPod key fl)).1 ∧ w_provider (pstep w (PSyncPod key fl)).1 = w_provider w.
+Lemma cinv_sync_pod w p fl : CInv w → wf_op w (PSyncPod p fl) →
+  CInv (pstep w (PSyncPod p fl)).1 ∧ freed_unassigned w (pstep w (PSyncPod p fl)).1 ∧ w_provider (pstep w (PSyncPod p fl)).1 = w_provider w.
 Proof.
-  intros HC. pose proof (ci_winv w HC) as HW. pose proof (winv_sync_pod w key fl HW) as HW'.
-  cbn [pstep] in *. destruct (w_lister w !! key) as [p|] eqn:El; [|by apply cinv_same]. cbn [fst] in *.
-  apply cinv_grow; [done|done|]. apply grow_sync_pod_ip; [by apply (wi_lister w HW key p)|apply (wi_ipam w HW)].
+  intros HC Hwf. pose proof (ci_winv w HC) as HW. pose proof (winv_sync_pod w p fl HW Hwf) as HW'.
+  cbn [pstep fst] in *. cbn [wf_op] in Hwf. unfold sync_given in *.
+  destruct (w_lister w !! pk p) as [cur|] eqn:El.
+  - destruct (str_eqb (pd_uid cur) (pd_uid p)); [|by apply cinv_same].
+    apply cinv_grow; [done|done|]. apply grow_sync_pod_ip; [by apply (wi_lister w HW _ cur El)|apply (wi_ipam w HW)].
+  - apply cinv_grow; [done|done|]. apply grow_sync_pod_ip; [done|apply (wi_ipam w HW)].
 Qed.
 
 (** * Filter *)
@@ -971,7 +974,7 @@ Qed.
 
 Lemma cinv_step_both w o : CInv w → wf_c10 w o → CInv (pstep w o).1 ∧ freed_unassigned w (pstep w o).1 ∧ w_provider (pstep w o).1 = w_provider w.
 Proof.
-  intros HC [Hwf Hc]. destruct o as [e|key nodes o fl|ns name uid node o fl|n o oun fl|ip o ocl fl|k ip ocl fl|key fl|op|conf].
+  intros HC [Hwf Hc]. destruct o as [e|key nodes o fl|ns name uid node o fl|n o oun fl|ip o ocl fl|k ip ocl fl|sp fl|op|conf].
   - cbn [pstep fst]. by apply cinv_env.
   - by apply cinv_filter.
   - destruct Hc as (Hnode & Hfu & Hk3). by apply cinv_bind.
